@@ -39,6 +39,7 @@ type modelVar struct {
 }
 
 type Ctx struct {
+	assumeSeen map[string]bool
 	decls   []*decl
 	declIdx map[string]*decl
 	defs    []*Term // definitional equalities of fresh names, always sound
@@ -131,6 +132,15 @@ func (c *Ctx) Assume(t *Term) {
 	if t.IsTrue() {
 		return
 	}
+	// identical assumptions (type facts of repeated heap reads) are recorded once
+	k := t.String()
+	if c.assumeSeen == nil {
+		c.assumeSeen = map[string]bool{}
+	}
+	if c.assumeSeen[k] {
+		return
+	}
+	c.assumeSeen[k] = true
 	c.assumes = append(c.assumes, t)
 }
 
